@@ -227,10 +227,11 @@ def _history(policy, name):
         "machines": [
             {"name": "Top", "regions": [["A", "S"]], "kinds": {"S": "sub:Sub"},
              "rows": ["A + E0 / a0 -> S", "A + E1 / a1 -> S", "A + E4 [g0] / a2 -> S.K1", "A + E5 / a3 -> S.K0|S.K2",
-                      "S + E3 [g1] / a4 -> A", "S + E4 / a5 -> A"]},
+                      "S + E3 [g1] / a4 -> A", "S + E4 / a5 -> A"],
+             "state": {"A": {"smptr": True}}},          # sm_ptr policy states (back / back11) at both levels
             {"name": "Sub", "regions": [["P0", "Q0", "K0"], ["P1", "Q1", "K1"], ["P2", "Q2", "K2"]],
              "kinds": {"K0": "explicit", "K1": "explicit", "K2": "explicit"},
-             "history": policy,
+             "history": policy, "state": {"P0": {"smptr": True}, "Q1": {"smptr": True}},
              "rows": ["P0 + E0 [g2] / a6 -> Q0", "Q0 + E0 / a7 -> K0", "K0 + E0 -> P0",
                       "P1 + E1 [g3] / a8 -> Q1", "Q1 + E1 / a9 -> K1", "K1 + E1 -> P1",
                       "P2 + E2 [g4] / a10 -> Q2", "Q2 + E2 / a11 -> K2", "K2 + E2 -> P2"]},
@@ -380,10 +381,10 @@ def serial_nested():
         "machines": [
             {"name": "Top", "regions": [["A", "M"], ["C", "D"]], "kinds": {"M": "sub:Mid"},
              "rows": ["A + E0 / a0 -> M", "M + E0 [g0] / a1 -> A", "C + E3 / a2 -> D", "D + E3 / a3 -> C"],
-             "state": {"A": {"data": True}, "D": {"data": True}}},
+             "state": {"A": {"data": True}, "D": {"data": True}, "M": {"data": True}}},        # M, L: data of a sub-machine's front-end
             {"name": "Mid", "regions": [["P", "L"], ["U", "V"]], "kinds": {"L": "sub:Leaf"}, "history": "always",
              "rows": ["P + E1 / a4 -> L", "L + E1 [g1] / a5 -> P", "U + E2 / a6 -> V", "V + E2 / a7 -> U"],
-             "state": {"P": {"data": True}}},
+             "state": {"P": {"data": True}, "L": {"data": True}}},
             {"name": "Leaf", "regions": [["X", "Y", "Z"]], "history": "shallow:E1",
              "rows": ["X + E2 / a8 -> Y", "Y + E2 [g2] / a9 -> Z", "Z + E2 -> X", "Y + E3 / a10"],
              "state": {"Y": {"data": True}}},
